@@ -3,7 +3,9 @@
 (M) DSLProgram.tla (pushdown automaton over the public DSL, context table transcribed from the doc comments,
     declarative Dangling predicate, outcome machine) is model-checked; every named deviation is shown to bite.
 (G) TLC enumerates (small function sets) and simulates (the full 120-function table, documented and odd argument
-    shapes, misplaced calls) programs and prints each with what the specification says about it; dslhost executes
+    shapes, misplaced calls; focused walks with a fixed spine around one kind of reference each: mappings, tags, views,
+    error responses, gRPC messages, security scopes, recursive user types under gRPC / HTTP transports) programs and
+    prints each with what the specification says about it; a seed corpus (vlib/c12_seeds.py) is read the same way; dslhost executes
     every program literally on the real dsl/eval/expr packages, one program per child process with a wall-clock
     limit; the observed outcome must be one the specification allows.
 (J) dslhost derives further programs by seeded mutation (splicing, token replacement, misplaced fresh calls,
